@@ -140,6 +140,9 @@ def rewrite_imports(source_code: str, mapping: MappingType) -> Union[str, None]:
     # split on the line breaks the parser recognises (\n, \r\n, \r): str.splitlines() also
     # breaks on \f, \v, \x1c-\x1e, \x85, \u2028 and \u2029, which shifts every line number
     lines = io.StringIO(source_code, newline="").readlines()
+    offsets = [0]  # offset of the first character of every line
+    for line in lines:
+        offsets.append(offsets[-1] + len(line))
     tree = ast.parse(source_code)
     replacements = []
 
@@ -175,16 +178,29 @@ def rewrite_imports(source_code: str, mapping: MappingType) -> Union[str, None]:
             # Get line numbers
             start_line = node.lineno - 1  # Convert to 0-based index
             end_line = getattr(node, 'end_lineno', node.lineno) - 1
-            replacements.append((start_line, end_line, replacement_lines))
+            # Other statements may share the first/last line (`import os; from x import y`):
+            # then only the import itself is replaced (column offsets are in UTF-8 bytes)
+            prefix = lines[start_line].encode("utf-8")[:node.col_offset].decode("utf-8")
+            end_col = getattr(node, "end_col_offset", None)
+            suffix = "" if end_col is None else \
+                lines[end_line].encode("utf-8")[end_col:].decode("utf-8")
+            if prefix.strip() or (suffix.strip() and not suffix.lstrip().startswith("#")):
+                start = offsets[start_line] + len(prefix)
+                end = offsets[end_line + 1] - len(suffix)
+                replacement = "; ".join(line.rstrip("\n") for line in replacement_lines)
+            else:
+                start, end = offsets[start_line], offsets[end_line + 1]
+                replacement = "".join(replacement_lines)
+            replacements.append((start, end, replacement))
 
     if len(replacements) == 0:
         return None
 
-    # Apply replacements in reverse order to maintain line indices
-    for start_line, end_line, replacement_lines in reversed(replacements):
-        lines[start_line:end_line+1] = replacement_lines
+    # Apply replacements in reverse order to maintain offsets
+    for start, end, replacement in reversed(replacements):
+        source_code = source_code[:start] + replacement + source_code[end:]
 
-    return ''.join(lines)
+    return source_code
 
 
 def process_file(filepath: str, mapping: MappingType) -> None:
